@@ -213,6 +213,7 @@ def run_history(case, transport):
             s = SCSI(dev, bs)
         expect(len(tgt.log) == 1 and tgt.log[0].get("name") == "INQUIRY", "mismatch:attach_commands",
                log=[r.get("name") for r in tgt.log])
+        held = []
         for i, op in enumerate(case["ops"]):
             before = len(tgt.log)
             k = op["k"]
@@ -248,6 +249,11 @@ def run_history(case, transport):
                     bad = next((j for j in range(min(len(got), len(want))) if got[j] != want[j]), min(len(got), len(want)))
                     expect(False, "mismatch:read_data", op=op, first_bad_byte=bad, got_len=len(got), want_len=len(want))
                 obs.append(("r", i, hashlib.blake2b(got, digest_size=8).hexdigest()))
+                held.append((op, c, hashlib.blake2b(got, digest_size=8).digest()))
+                # data read earlier and still held by the caller is not altered by later commands
+                for op0, c0, h0 in held[-4:-1]:
+                    expect(hashlib.blake2b(bytes(c0.datain), digest_size=8).digest() == h0,
+                           "mismatch:earlier_read_data_changed_by_a_later_command", earlier=op0, later=op)
                 if len(model.writers_of(op["lba"], op["tl"])) >= 2:
                     nontrivial = True
             elif k == "sync":
